@@ -97,6 +97,7 @@ def impl(case):
     nc, ns = len(frames[0][0]), len(frames[0][1])
     coords = np.array([f[0] + f[1] for f in frames], dtype=float) / DEN
     traj = synth.make_traj(case['m'], ['P'] * nc + ['S'] * ns, coords)
+    guard = synth.InputGuard(trajectory=traj)
     ori = Orientations(trajectory=traj, center_type='P', satellite_type='S')
     lat = traj.get_lattice()
     vec = np.array(ori.vectors)
@@ -128,6 +129,7 @@ def impl(case):
     out['ac'] = np.asarray(ac).tolist()
     out['ac_def'] = _autocorr_def(vec).tolist()
     out['ac_coded'] = _autocorr_as_coded(vec).tolist()
+    out['inputs_changed'] = guard.changed()
     return out
 
 
@@ -158,7 +160,7 @@ def _exact_bonds(case):
 def oracle(case, out):
     if 'frac' not in out:
         return [('c18/harness-error', f"{out.get('error')}: {out.get('msg')} {out.get('tb', '')[-500:]}")]
-    fs = []
+    fs = synth.inputs_clause(out, 'Orientations')
     G = synth.gram(case['m'])
     want, _, match = _exact_bonds(case)
     got = np.array(out['frac'])
